@@ -28,6 +28,7 @@ import (
 	"github.com/rulego/streamsql/utils/cast"
 
 	"github.com/rulego/streamsql/types"
+	"github.com/rulego/streamsql/verifhook"
 )
 
 var _ Window = (*CountingWindow)(nil)
@@ -124,6 +125,7 @@ func (cw *CountingWindow) Add(data any) {
 
 	select {
 	case cw.triggerChan <- row:
+		verifhook.At("cw.add", cw, 0, 0, 0)
 	case <-cw.ctx.Done():
 	}
 }
@@ -184,6 +186,7 @@ func (cw *CountingWindow) Start() {
 				} else {
 					cw.mu.Unlock()
 				}
+				verifhook.At("cw.row", cw, 0, 0, 0)
 
 			case <-tickChan:
 				cw.reapIdleKeys(time.Now())
